@@ -52,6 +52,9 @@ def check_slice(n, start, stop, step, obj=None):
             bad.append(('slice_indices', 'indices(%d)=%r expected %r' % (n, ind, exp)))
         if gen != exp:
             bad.append(('slice_gen', 'gen_indices(%d)=%r expected %r' % (n, gen, exp)))
+        pairs = list(zip(s.gen_indices(n), s.gen_indices(n)))
+        if [a for a, _b in pairs] != exp or [b for _a, b in pairs] != exp:
+            bad.append(('slice_gen_interleaved', 'two gen_indices(%d) consumed in step give %r expected %r' % (n, pairs, exp)))
         if cnt != len(exp):
             bad.append(('slice_count', 'count(%d)=%r expected %r' % (n, cnt, len(exp))))
         if exp:
@@ -98,6 +101,18 @@ def check_sample(k, n, obj=None):
             bad.append(('sample_indices', 'Sample(%d).indices(%d)=%r: %s' % (k, n, ind, why)))
         if gen != ind:
             bad.append(('sample_gen', 'gen_indices %r != indices %r' % (gen, ind)))
+        # two generators of the one object consumed in step, and the list asked for while a generator is running
+        pairs = list(zip(s.gen_indices(n), s.gen_indices(n)))
+        if [a for a, _b in pairs] != ind or [b for _a, b in pairs] != ind:
+            bad.append(('sample_gen_interleaved', 'Sample(%d): two gen_indices(%d) consumed in step give %r, indices %r' % (k, n, pairs, ind)))
+        during = []
+        for i in s.gen_indices(n):
+            during.append(i)
+            if s.indices(n) != ind:
+                bad.append(('sample_gen_interleaved', 'Sample(%d): indices(%d) called while a generator runs gives %r, before %r' % (k, n, s.indices(n), ind)))
+                break
+        if during != ind and not bad:
+            bad.append(('sample_gen_interleaved', 'Sample(%d): gen_indices(%d) with indices() called in between gives %r, indices %r' % (k, n, during, ind)))
         if cnt != len(ind) or cnt != min(k, n):
             bad.append(('sample_count', 'count(%d)=%r, len(indices)=%d, min(k,n)=%d' % (n, cnt, len(ind), min(k, n))))
         if ind and s.first(n) != ind[0]:
